@@ -51,3 +51,13 @@ claim("C03",
       "exhaustive enumeration of memory-accessing opcodes x pointer placements with per-cycle marker injection and per-cycle write observation on the real CPU",
       "For every opcode that reads or writes memory, 8 pointer placements (WRAM, echo, HRAM, VRAM/OAM with LCD off) and 16 flag nibbles, the harness stores the distinguishing marker at each read address only before the documented read cycle, so the value consumed (visible in registers/flags at the boundary) identifies the cycle of each read, and reads back every write target after every machine cycle so the cycle of each write is observed; documented cycles come from the reference interpreter's access list (LD A,(nn) R@4, PUSH W@3,4, INC (HL) R@2 W@3, CB (HL) R@3 W@4, CALL W@5,6, RET cc R@3,4, LD (nn),SP W@4,5, ...).",
       "Operand-byte fetch timing and interrupt-dispatch pushes are outside the statement. Accesses to side-effecting I/O registers are not used as probes.")
+
+claim("C04",
+      "exhaustive enumeration of control-instruction programs x interrupt-request injection points on the real CPU in lock-step with a reference interrupt/EI/DI/RETI control machine",
+      "The complete IE x IF x IME boundary table (2,048 cases + unused high bits) and every program of length <= 3 (thorough 4) over {NOP, EI, DI, RETI, INC A, LDH (0F),A, LDH (FF),A, LD A,00, LD A,1F} x initial IME x 6 IE values x one interrupt request of each of the five sources raised before every machine cycle 0-13 (thorough: also pairs of requests) are executed cycle by cycle on the real CPU/Interrupts/Mapper; at every instruction boundary the boundary time (dispatch = exactly 5 cycles), all registers, IF, IE and the pushed return address are compared with the reference machine (priority, exactly one IF bit cleared, EI delayed by one instruction, DI/RETI immediate).",
+      "Requests arriving while a dispatch is in progress are a don't-care (pruned). The IME flag is judged only through behaviour.")
+
+claim("C05",
+      "exhaustive enumeration of HALT x follower opcode x IME x pending state x request arrival time on the real CPU in lock-step with the reference HALT/halt-bug machine",
+      "HALT followed by each of the 500 executable encodings, under both IME values, 8 IE/IF combinations and one request of each source arriving before every cycle of the idle bound (8, thorough 32) or never; while idle every cycle is compared (nothing may change), wake-up with IME=1 must dispatch in 6 cycles, wake-up with IME=0 must resume at the following instruction leaving IF untouched, and HALT with IME=0 and a pending request must execute the following byte twice.",
+      "IME=0 wake-up latency (0-4 cycles) and the halt bug in front of a CB prefix are don't-cares.")
